@@ -57,6 +57,10 @@ KINDS = {
     "fk1": "ALTER TABLE {T} ADD FOREIGN KEY ({b}) REFERENCES o (x);",
     "fkbb": "ALTER TABLE {T} ADD FOREIGN KEY (bb) REFERENCES o (x);",  # a key over the column a RENAME produced
     "fkd": "ALTER TABLE {T} ADD CONSTRAINT fkd FOREIGN KEY (d) REFERENCES o (y);",  # ... and over a column an ADD produced
+    # the word NULL inside an ALTER statement, referential actions in an ALTER, NULLS placement on non-first index columns
+    "defnull": "ALTER TABLE {T} ADD CONSTRAINT d2 DEFAULT NULL FOR c;",
+    "fkact": "ALTER TABLE {T} ADD CONSTRAINT fk2 FOREIGN KEY (c) REFERENCES s9.o (y) ON DELETE CASCADE ON UPDATE RESTRICT;",
+    "idxn": "CREATE INDEX i4 ON {T} (a, b DESC NULLS FIRST, c NULLS LAST);",
 }
 MODES = ["sql", "bigquery"]
 D3Q_KINDS = ["add", "ifex", "dropd", "rend", "drop", "rename", "fk1", "modcol", "fkbb", "fkd"]
@@ -181,12 +185,12 @@ def apply(m, op):
         A.setdefault("uniques", []).append({"constraint_name": "u1", "columns": ["a", "b"]})
     elif k in ("chk", "only"):
         A.setdefault("checks", []).append({"constraint_name": "c1", "statement": "a > 0"} if k == "chk" else {"constraint_name": "c2", "statement": "c > 0"})
-    elif k in ("def", "def2"):
-        targets = ["a"] if k == "def" else ["a", "c"]
-        A.setdefault("defaults", []).append({"constraint_name": "d1", "columns": targets, "value": "0"})
+    elif k in ("def", "def2", "defnull"):
+        targets, cname, val = {"def": (["a"], "d1", "0"), "def2": (["a", "c"], "d1", "0"), "defnull": (["c"], "d2", "NULL")}[k]
+        A.setdefault("defaults", []).append({"constraint_name": cname, "columns": targets, "value": val})
         for c in cols:
             if c[0] in targets:
-                c[2] = "0"
+                c[2] = val
     elif k == "fk":
         for n_, r_ in (("a", "x"), ("c", "y")):
             A.setdefault("columns", []).append([n_, r_])
@@ -196,6 +200,10 @@ def apply(m, op):
         A.setdefault("columns", []).append([col, rc])
         if nm(col) not in names:
             m["undef"] = True  # a key over a column that does not (or no longer) exist: the statement does not say what happens
+    elif k == "fkact":
+        A.setdefault("columns", []).append(["c", "y", "CASCADE", "RESTRICT"])
+    elif k == "idxn":
+        m["index"].append({"index_name": "i4", "unique": False, "columns": ["a", "b", "c"], "orders": ["ASC", "DESC", "ASC"], "nulls": ["LAST", "FIRST", "LAST"]})
     elif k == "idxl":
         m["index"].append({"index_name": "i3", "unique": False, "columns": ["c", "a", "b"], "orders": ["DESC", "ASC", "ASC"]})
     elif k == "idx":
@@ -216,12 +224,19 @@ def observe(t):
         o["alter"]["defaults"] = [{"constraint_name": d.get("constraint_name"), "columns": [c for c in (d.get("columns") or []) if c != ","], "value": str(d.get("value"))} for d in al["defaults"]]
     if "columns" in al:
         # only the foreign-key entries: how plainly added columns are echoed here is not part of the statement
-        fks = [[c.get("name"), (c.get("references") or {}).get("column")] for c in al["columns"] if c.get("references")]
+        fks = []
+        for c in al["columns"]:
+            if c.get("references"):
+                r_ = c["references"]
+                fks.append([c.get("name"), r_.get("column")] + ([r_.get("on_delete"), r_.get("on_update")] if (r_.get("on_delete") or r_.get("on_update")) else []))
         if fks:
             o["alter"]["columns"] = fks
     for ix in t.get("index", []):
-        o["index"].append({"index_name": ix.get("index_name"), "unique": ix.get("unique"), "columns": ix.get("columns"),
-                           "orders": [d.get("order") for d in ix.get("detailed_columns", [])]})
+        e = {"index_name": ix.get("index_name"), "unique": ix.get("unique"), "columns": ix.get("columns"),
+             "orders": [d.get("order") for d in ix.get("detailed_columns", [])]}
+        if any(d.get("nulls") != "LAST" for d in ix.get("detailed_columns", [])):
+            e["nulls"] = [d.get("nulls") for d in ix.get("detailed_columns", [])]  # compared when a NULLS placement was written
+        o["index"].append(e)
     return o
 
 
